@@ -539,6 +539,236 @@ def backends_consts(q):
     return list(out.values())
 
 
+# =================================================================================================================================
+#  api.ParquetFile.__init__: which `root` reaches metadata_from_many / analyse_paths  (C08 / C14)
+# =================================================================================================================================
+ROOT_GIVEN, FN_IS_LIST, STAR_IN_FN = z3.Bool("root_given"), z3.Bool("fn_is_a_list"), z3.Bool("star_in_fn")
+INIT_ASSUMED = [
+    "ParquetFile.__init__ is run with a filesystem object fs (given, or derived from open_with): fs._strip_protocol(x) only removes a "
+    "protocol prefix - it names the same directory as x; fs.find(d) lists the files below directory d, fs.glob(pattern) those matching",
+    "with util.analyse_paths' contract (analyse_paths.root_given_is_honoured[returns], same module): the base path of the handle is the "
+    "root it is given, so every directory level below that root is a partition level of the relative paths",
+    "ParquetFile.basepath / row_group_filename are EXECUTED (their expressions compiled from the current source, util.join_path too) on a "
+    "generated table of fn shapes: backend `enumeration (executed)`, a bound, not a proof; bases are non-root directories without "
+    "backslash or trailing '/'",
+]
+
+
+class _Prov:
+    """a value of __init__ identified by where it comes from"""
+    tracked = False
+
+    def __init__(self, what, truthy=None):
+        self.what, self.truthy = what, truthy
+
+    def truth(self, eng, p):
+        return self.truthy if self.truthy is not None else z3.BoolVal(True)
+
+    def is_none(self, eng, p):
+        return z3.BoolVal(False)
+
+    def isinstance(self, eng, p, tn):
+        return FN_IS_LIST if self.what == "fn" and "list" in tn else z3.BoolVal(False)
+
+    def contains(self, eng, p, item):
+        if self.what == "fn" and isinstance(item, Str) and item.s == "*":
+            return STAR_IN_FN
+        raise Unsupported("membership test on " + str(self.what))
+
+    def call_method(self, eng, p, name, args, kw, node):
+        if name in ("endswith", "startswith"):
+            return [(p, PyB(eng.fresh(name, B)))]
+        return [(p, Opaque((str(self.what), name, next(eng.counter))))]
+
+    def attr(self, eng, p, name):
+        return Opaque((str(self.what), name))
+
+    def arbitrary(self, eng, p):
+        return Custom(_Prov(("member of", self.what)))
+
+    def nonempty(self, eng, p):
+        return z3.Bool("some file found")
+
+
+class _SelfV:
+    tracked = False
+
+    def setattr(self, eng, p, name, v):
+        pass
+
+    def attr(self, eng, p, name):
+        return Opaque(("self", name))
+
+    def call_method(self, eng, p, name, args, kw, node):
+        return [(p, NONE)]
+
+
+class _FsV:
+    tracked = False
+
+    def truth(self, eng, p):
+        return z3.BoolVal(True)
+
+    def is_none(self, eng, p):
+        return z3.BoolVal(False)
+
+    def isinstance(self, eng, p, tn):
+        return z3.BoolVal(True)
+
+    def attr(self, eng, p, name):
+        return Opaque(("fs", name))
+
+    def call_method(self, eng, p, name, args, kw, node):
+        a = args[0] if args else None
+        pa = a.h if isinstance(a, Custom) and isinstance(a.h, _Prov) else None
+        if name == "_strip_protocol":
+            return [(p, Custom(_Prov(("strip_protocol", pa.what if pa else "?"), pa.truthy if pa else None)))]
+        if name in ("isfile", "isdir", "exists"):
+            return [(p, PyB(z3.Bool("fs." + name)))]
+        if name in ("glob", "find"):
+            return [(p, Custom(_Prov(("fs." + name, pa.what if pa else "?"))))]
+        return [(p, Opaque(("fs", name, next(eng.counter))))]
+
+
+ASSUMED += INIT_ASSUMED
+
+
+def run_init_root(funcs, timeout):
+    from .c08_paths import Eng
+    from vc.symexec import AbstractComp
+
+    class E2(Eng):
+        def identical(self, a, b, p):
+            try:
+                return super().identical(a, b, p)
+            except Unsupported:
+                return self.fresh("is", B)
+    res = Results()
+    calls = []
+
+    def h_mfm(eng, p, args, kw, node):
+        calls.append((args[0] if args else kw.get("file_list"), kw.get("root", args[3] if len(args) > 3 else None), list(p.pc), node.lineno))
+        return [(p, Tup([Opaque("basepath"), Opaque("fmd")]))]
+    eng = E2(funcs=funcs, handlers={"metadata_from_many": h_mfm, "hasattr": lambda e, p, a, k, n: [(p, PyB(z3.Bool("fn_has_read")))]},
+             opaque_calls=True)
+    eng.run("ParquetFile.__init__", Path(), [Custom(_SelfV()), Custom(_Prov("fn"))],
+            {"root": Custom(_Prov("root", ROOT_GIVEN)), "fs": Custom(_FsV()), "open_with": Opaque("default_open")})
+    P = "ParquetFile.__init__."
+    seen = set()
+    for files, root, pc, line in calls:
+        h = files.h if isinstance(files, Custom) else None
+        if isinstance(h, _Prov) and h.what == "fn":
+            kind = "list"
+        elif isinstance(h, _Prov) and h.what == ("fs.glob", "fn"):
+            kind = "glob"
+        elif isinstance(h, AbstractComp) and isinstance(h.coll, Custom) and isinstance(h.coll.h, _Prov) and h.coll.h.what == ("fs.find", "fn"):
+            kind = "directory"
+        elif isinstance(h, _Prov) and h.what == ("fs.find", "fn"):
+            kind = "directory"
+        else:
+            res.add(P + f"many_files_call_site_recognised@L{line}", UNKNOWN, None, 0.0, "symbolic run", "metadata_from_many is called with a file list of unknown origin")
+            continue
+        seen.add(kind)
+        rw = root.h.what if isinstance(root, Custom) and isinstance(root.h, _Prov) else ("False" if isinstance(root, PyB) else type(getattr(root, "h", root)).__name__)
+        for given in (True, False):
+            if solve(pc + [ROOT_GIVEN if given else z3.Not(ROOT_GIVEN)], timeout)[0] == PROVED:
+                continue                           # this path belongs to the other case
+            tag = f"[{kind}, root {'given' if given else 'not given'}]"
+            if given:
+                want, detail = ("strip_protocol", "root"), "the user's root (protocol stripped) is what metadata_from_many / analyse_paths receives"
+            elif kind == "directory":
+                want, detail = ("strip_protocol", "fn"), ("a DIRECTORY name opened without a _metadata file is itself the root handed to metadata_from_many / "
+                                                          "analyse_paths (root = root or fn): every directory level below the directory the user named is a "
+                                                          "partition level - a top-level key with a single value is NOT swallowed by the common prefix")
+            else:
+                want, detail = "root", ("no root for a list of files / a glob pattern: the parameter's default (False) goes through and analyse_paths takes the "
+                                        "longest common directory prefix - legitimate here, the user named no directory")
+            ok = rw == want
+            res.add(P + "root_handed_to_metadata_from_many" + tag, PROVED if ok else REFUTED, None if ok else {"root argument comes from": str(rw), "line": line},
+                    0.0, "symbolic run", detail)
+    for kind in ("list", "directory", "glob"):
+        res.add(P + f"many_files_branch_reached[{kind}]", PROVED if kind in seen else UNKNOWN, None, 0.0, "symbolic run",
+                "the symbolic run of __init__ reaches a metadata_from_many call for this kind of input")
+    return res, len(calls)
+
+
+# =================================================================================================================================
+#  api.ParquetFile.basepath / row_group_filename: executed on a table of fn shapes  (C14 / C08)
+# =================================================================================================================================
+BASES = {"bare name (files share no directory)": [""], "one directory": ["d", "data.dir"], "nested": ["a/b", "a/b/c_d/e"],
+         "absolute": ["/abs", "/abs/x/y"], "relative with dots": ["./d", "../up/d"], "name containing _metadata": ["a_metadata", "x/_metadata_old", "_metadata/sub"],
+         "protocol-like": ["bucket/key=1"]}
+RELS = ["part.0.parquet", "k=1/part.0.parquet", "a=x/b=2/part.10.parquet", "f0.parquet"]
+
+
+def run_basepath(funcs_api, funcs_util):
+    import re as _re
+    import types
+    res = Results()
+
+    def compile_fn(f, name):
+        node = ast.FunctionDef(name=name, args=f.tree.args, body=f.tree.body, decorator_list=[], returns=None, type_comment=None, type_params=[])
+        mod = ast.Module(body=[node], type_ignores=[])
+        ast.fix_missing_locations(mod)
+        return compile(mod, f"<{name} from the current source>", "exec")
+    ns = {"re": _re}
+    exec(compile_fn(funcs_util["join_path"], "join_path"), ns)
+    exec(compile_fn(funcs_api["ParquetFile.basepath"], "basepath"), ns)
+    exec(compile_fn(funcs_api["ParquetFile.row_group_filename"], "row_group_filename"), ns)
+    jp = ns["join_path"]
+    Stub = type("HandleStub", (), {"basepath": property(ns["basepath"]), "row_group_filename": ns["row_group_filename"]})
+
+    def rg_of(fp):
+        return types.SimpleNamespace(columns=[types.SimpleNamespace(file_path=fp)] if fp is not ... else [])
+    n = 0
+    for shape, bases in BASES.items():
+        bad_b, bad_r = None, None
+        for base in bases:
+            # the fn values __init__ produces: join_path(basepath, '_metadata') if basepath else '_metadata' (many files), join_path(dir, '_metadata')
+            # (directory with a _metadata file), and the same with a trailing '/' (basepath's regex allows it)
+            fns = [jp(base, "_metadata") if base else "_metadata"]
+            fns += [fns[0] + "/"]
+            for fn in fns:
+                h = Stub()
+                h.fn = fn
+                n += 1
+                try:
+                    got = h.basepath
+                except Exception as ex:
+                    got = f"{type(ex).__name__}: {ex}"
+                if got != base and bad_b is None:
+                    bad_b = {"fn": fn, "basepath": got, "expected": base}
+                for rel in RELS:
+                    n += 1
+                    try:
+                        got = h.row_group_filename(rg_of(rel))
+                    except Exception as ex:
+                        got = f"{type(ex).__name__}: {ex}"
+                    want = (base + "/" + rel) if base else rel
+                    if got != want and bad_r is None:
+                        bad_r = {"fn": fn, "file_path": rel, "row_group_filename": got, "expected (the path the file was listed under)": want}
+        res.add(f"ParquetFile.basepath.is_the_directory_of_the_metadata_file[{shape}]", REFUTED if bad_b else PROVED, bad_b, 0.0, "enumeration (executed)",
+                "for fn == '<base>/_metadata' ('_metadata' alone for the empty base; also with a trailing '/'): basepath == base exactly ('' for the bare name)")
+        res.add(f"ParquetFile.row_group_filename.is_base_joined_with_the_relative_path[{shape}]", REFUTED if bad_r else PROVED, bad_r, 0.0, "enumeration (executed)",
+                "row_group_filename(rg) == join_path(base, rg.columns[0].file_path) == the path the file was listed under (inverse of analyse_paths: "
+                "base ++ relative == original path); the relative path alone for the empty base")
+    bad = None
+    for fn in ("data.parquet", "dir/data.parq", "/abs/one.parquet"):
+        for rg in (rg_of(None), rg_of(...)):
+            h = Stub()
+            h.fn = fn
+            n += 1
+            try:
+                got = h.row_group_filename(rg)
+            except Exception as ex:
+                got = f"{type(ex).__name__}: {ex}"
+            if got != fn and bad is None:
+                bad = {"fn": fn, "row_group_filename": got}
+    res.add("ParquetFile.row_group_filename.single_file_is_fn_itself", REFUTED if bad else PROVED, bad, 0.0, "enumeration (executed)",
+            "a row group without file_path (simple file) is read from self.fn")
+    return res, n
+
+
 def check(ctx, timeout):
     """-> list of (name, model, detail) refuted"""
     funcs, _, _ = parse_module("fastparquet/util.py")
@@ -568,4 +798,29 @@ def check(ctx, timeout):
                            model=e[1] if st == REFUTED else None, sample=(st != PROVED or "longest" in name))
             if st == REFUTED:
                 out.append((name, e[1], e[4]))
+    # ---- ParquetFile.__init__ root provenance; basepath / row_group_filename executed on fn shapes -------------------------------------
+    def family(tag, fn_names, thunk):
+        try:
+            api, _, _ = parse_module("fastparquet/api.py")
+            for q in fn_names:
+                if q not in api:
+                    raise Unsupported(f"api.{q} no longer exists")
+                ctx.function("api." + q, api[q].sha, api[q].report)
+            res, n = thunk(api)
+        except Unsupported as ex:
+            ctx.obligation(tag + ".out_of_reach", "api." + fn_names[0], UNKNOWN, "engine", 0.0, detail=str(ex), sample=True)
+            return
+        except Exception as ex:
+            ctx.obligation(tag + ".out_of_reach", "api." + fn_names[0], UNKNOWN, "engine", 0.0, detail=f"{type(ex).__name__}: {ex}", sample=True)
+            return
+        ctx.vacuity["covers"] += n
+        for name in res.order:
+            st = res.status(name)
+            e = next((x for x in res.d[name] if x[0] == st), res.d[name][0])
+            fnq = "api." + next((q for q in fn_names if q.split(".")[-1] in name), fn_names[0])
+            ctx.obligation(name, fnq, st, e[3], 0.0, detail=e[4], model=e[1] if st == REFUTED else None, sample=st != PROVED)
+            if st == REFUTED:
+                out.append((name, e[1], e[4]))
+    family("ParquetFile.__init__", ["ParquetFile.__init__"], lambda api: run_init_root(api, timeout))
+    family("ParquetFile.basepath", ["ParquetFile.basepath", "ParquetFile.row_group_filename"], lambda api: run_basepath(api, funcs))
     return out
